@@ -89,6 +89,10 @@ class Model(object):
         self.M = None  # persistent mapper shared by the m-* operations
         self.Mfp = None
         self.derived = 0
+        self.MM = None  # persistent MemoryMap and its latest copy (mm-* operations)
+        self.MMfp = None
+        self.MMc = None
+        self.MMcfp = None
 
     def add(self, e):
         from amoco.cas.expressions import exp
@@ -150,6 +154,18 @@ class Model(object):
             elif now != self.Mfp:
                 diff = [(x, y) for x, y in zip(now, self.Mfp) if x != y][:2] or [(len(now), len(self.Mfp))]
                 raise Violation("map-changed:%s" % last, "the long-lived mapper changed without being written: %r" % (diff,))
+        for what, mm_, fp_ in (("memory map", self.MM, self.MMfp), ("copy of the memory map", self.MMc, self.MMcfp)):
+            if mm_ is not None and fp_ is not None:
+                now = self.zones_fp(mm_)
+                if now != fp_ and self.exclude_known and last.endswith("-widening"):
+                    self.excluded += 1  # the known widening finding seen through the memory map
+                    if mm_ is self.MM:
+                        self.MMfp = now
+                    else:
+                        self.MMcfp = now
+                elif now != fp_:
+                    diff = [(x, y) for x, y in zip(now, fp_) if x != y][:2] or [(len(now), len(fp_))]
+                    raise Violation("memorymap-changed:%s" % last, "the long-lived %s changed without being written: %r" % (what, diff))
         for k in reversed(drop):
             self.excluded += 1
             del self.pool[k]
@@ -295,6 +311,8 @@ class Model(object):
                     if b.size % 8 == 0:
                         m[E.mem(p + (op["n"] % 4), b.size)] = b
                     x = m(E.mem(p, size))
+            elif k.startswith("mm-"):
+                self.mm_op(k, op, a, b)
             elif k.startswith("m-"):
                 x = self.map_op(k, op, a, b)
             elif k == "pickle-exp":
@@ -334,17 +352,56 @@ class Model(object):
             except (R.Inconclusive, AssertionError):
                 vals = None
             out.append((str(loc), v.size, vals))
-        for key, z in sorted(m.mmap._zones.items(), key=lambda kv: str(kv[0])):
+        return out + self.zones_fp(m.mmap)
+
+    def zones_fp(self, mmap):
+        """byte-level content of a MemoryMap: (zone, address, byte | (values of the symbolic value, byte index))"""
+        out = []
+        for key, z in sorted(mmap._zones.items(), key=lambda kv: str(kv[0])):
             for o in z._map:
                 if o.data._is_raw:
-                    d = bytes(o.data.val)
+                    for i, x in enumerate(bytes(o.data.val)):
+                        out.append(("zone:%s" % key, o.vaddr + i, x))
                 else:
                     try:
-                        d = (values(o.data.val), o.data.endian)
+                        d = (tuple(values(o.data.val)), o.data.endian)
                     except (R.Inconclusive, AssertionError):
                         d = None
-                out.append(("zone:%s" % key, o.vaddr, d))
+                    out.append(("zone:%s" % key, o.vaddr, d))
         return out
+
+    def mm_op(self, k, op, a, b):
+        from amoco.cas import expressions as E
+        from amoco.system.memory import MemoryMap
+
+        if self.MM is None:
+            self.MM = MemoryMap()
+            self.MM.write(E.cst(0x1000, 32), b"\x01\x02\x03\x04\x05\x06\x07\x08")
+            self.MM.write(E.cst(0x1010, 32), E.reg("R64", 64))
+
+        def wr(mm_, n, val):
+            addr = E.cst(0x1000 + n % 40, 32)
+            if val is None:
+                mm_.write(addr, bytes((n * 7 + i) & 0xFF for i in range(1 + n % 6)))
+            elif val.size % 8 == 0:
+                mm_.write(addr, val, endian=1 if n & 64 else -1)
+
+        if k == "mm-write":
+            wr(self.MM, op["n"], a if op.get("sym") else None)
+            self.MMfp = self.zones_fp(self.MM)
+        elif k == "mm-copy":
+            # writes through a copy must not be visible in the original, and later writes to the original not in the copy
+            C = self.MM.copy()
+            self.derived += 1
+            fp0 = self.zones_fp(C)
+            if fp0 != self.zones_fp(self.MM):
+                raise Violation("memorymap-copy-differs", "MemoryMap.copy() is not equal to the original")
+            wr(C, op["n"], a if op.get("sym") else None)
+            wr(C, op["m"], None)
+            self.MMc = C
+            self.MMcfp = self.zones_fp(C)
+        if self.MMfp is None:
+            self.MMfp = self.zones_fp(self.MM)
 
     def map_op(self, k, op, a, b):
         from amoco.cas import expressions as E
@@ -582,6 +639,14 @@ def make_machine(part, steps):
         @rule(how=st.sampled_from(["use", "eval", "rshift", "lshift", "assume", "merge"]), j=st.integers(0, 3), n=ints, m=ints, sym=st.booleans(), conc=st.booleans())
         def m_derive(self, how, j, n, m, sym, conc):
             self.do(dict(op="m-derive", a=0, how=how, j=j, n=n, m=m, sym=sym, conc=conc))
+
+        @rule(a=ints, n=ints, sym=st.booleans())
+        def mm_write(self, a, n, sym):
+            self.do(dict(op="mm-write", a=a, n=n, sym=sym))
+
+        @rule(a=ints, n=ints, m=ints, sym=st.booleans())
+        def mm_copy(self, a, n, m, sym):
+            self.do(dict(op="mm-copy", a=a, n=n, m=m, sym=sym))
 
         @rule(a=ints)
         def pickle_exp(self, a):
